@@ -41,6 +41,9 @@ func c15Gen(tier string, seed int64) []fw.Case {
 	for i := 0; i < 2; i++ {
 		cs = append(cs, fw.Mk(fmt.Sprintf("retransmission-meets-fresh-request-%d", i), c15Params{Mode: "meet", N: scale(tier, 3, 60)}))
 	}
+	for i := 0; i < 2; i++ {
+		cs = append(cs, fw.Mk(fmt.Sprintf("retry-handles-%d", i), c15Params{Mode: "handles", N: scale(tier, 12, 600)}))
+	}
 	cs = append(cs, fw.Mk("laggard-full-cycle", c15Params{Mode: "laggard"}))
 	return cs
 }
@@ -296,6 +299,20 @@ func c15Run(c fw.Case, env *fw.Env) fw.Result {
 				r.Sample = map[string]interface{}{"mode": "waves", "start_counter": start, "callers": callers, "requests": reqs, "max_outstanding": maxOut, "crossed_wraparound": wrap}
 			}
 		}
+	case "handles":
+		for round := 0; round < p.N; round++ {
+			s, d := c15Handles(rng)
+			if s == "inconclusive" {
+				r.Counters["inconclusive_rounds"]++
+				continue
+			}
+			if s != "" {
+				return fail(s, "%s", d)
+			}
+			r.Evals++
+			r.NT = append(r.NT, fw.Hash("handles", c.Idx, round))
+		}
+		r.Sample = map[string]interface{}{"mode": "retry handles: caller-set id on the same connection; re-sent subscribe/unsubscribe next to a fresh request", "rounds": p.N}
 	case "meet":
 		// A request interrupted on one connection is retransmitted (same identifier) through its retry handle on the
 		// next connection, where a fresh request is outstanding. Identifiers start at a random point per connection,
@@ -569,4 +586,97 @@ func c15Meet() (met bool, detail string, ok bool) {
 		return false, "", true // C12's business
 	}
 	return fin[0].P.ID == oldID, fmt.Sprintf("identifier %d", oldID), true
+}
+
+// c15Handles: identifiers of requests re-issued through their retry handles.
+//   - same connection: a publish with a caller-set identifier whose context ends before the acknowledgement is
+//     re-issued on the SAME, still healthy client: the caller's identifier goes out again, unchanged;
+//   - next connection: a subscribe / unsubscribe interrupted on connection A is re-issued on connection B whose
+//     counter stands right below A's identifier while a fresh publish (which therefore got exactly that identifier)
+//     is outstanding: the re-issued request must not carry the identifier of the outstanding one.
+func c15Handles(rng *rand.Rand) (string, string) {
+	tr := memnet.NewTrace()
+	peer := &scen.Script{Tr: tr, AutoConnack: true}
+	ctx, cancel := context.WithTimeout(context.Background(), scen.Watchdog)
+	defer cancel()
+	cliA, connA := scen.NewBase(tr, peer)
+	defer cliA.Close()
+	if err := scen.ConnectBase(cliA); err != nil {
+		return "inconclusive", err.Error()
+	}
+	if rng.Intn(2) == 0 {
+		id := uint16(1 + rng.Intn(65535))
+		qos := mqtt.QoS(1 + rng.Intn(2))
+		sctx, scancel := context.WithTimeout(ctx, 2*time.Millisecond)
+		err := cliA.Publish(sctx, &mqtt.Message{Topic: "c15/same", QoS: qos, ID: id, Payload: []byte("s")})
+		scancel()
+		rh, ok := err.(mqtt.ErrorWithRetry)
+		if !ok {
+			return "inconclusive", fmt.Sprintf("no retry handle: %v", err)
+		}
+		go rh.Retry(ctx, cliA)
+		in, seen := peer.WaitIn(scen.Watchdog, 2, func(p *mqttref.Packet) bool { return p.Type == mqttref.PUBLISH && p.Topic == "c15/same" })
+		if !seen {
+			return "inconclusive", "re-issued publish not seen"
+		}
+		for n, ip := range in {
+			if ip.P.ID != id {
+				return "preset-id-changed", fmt.Sprintf("QoS%d publish with caller-set identifier %d, re-issued through its retry handle on the same connection after its context ended: transmission #%d carried identifier %d", qos, id, n+1, ip.P.ID)
+			}
+		}
+		return "", ""
+	}
+	kind := rng.Intn(2)
+	res := make(chan error, 1)
+	want := mqttref.SUBSCRIBE
+	go func() {
+		if kind == 0 {
+			_, err := cliA.Subscribe(ctx, mqtt.Subscription{Topic: "c15/sub", QoS: mqtt.QoS1})
+			res <- err
+		} else {
+			res <- cliA.Unsubscribe(ctx, "c15/sub")
+		}
+	}()
+	if kind == 1 {
+		want = mqttref.UNSUBSCRIBE
+	}
+	in, seen := peer.WaitIn(scen.Watchdog, 1, func(p *mqttref.Packet) bool { return p.Type == want })
+	if !seen {
+		return "inconclusive", "request not seen"
+	}
+	oldID := in[0].P.ID
+	if oldID < 2 {
+		return "inconclusive", "identifier too small to position the next counter below it"
+	}
+	connA.PeerClose("interrupt")
+	var herr error
+	select {
+	case herr = <-res:
+	case <-time.After(scen.Watchdog):
+		return "inconclusive", "interrupted request did not return"
+	}
+	rh, ok := herr.(mqtt.ErrorWithRetry)
+	if !ok {
+		return "inconclusive", fmt.Sprintf("no retry handle: %v", herr)
+	}
+	cliB, _ := scen.NewBase(tr, peer)
+	defer cliB.Close()
+	if err := scen.ConnectBase(cliB); err != nil {
+		return "inconclusive", err.Error()
+	}
+	mqtt.VerifSetIDLast(cliB, uint32(oldID-1))
+	go cliB.Publish(ctx, &mqtt.Message{Topic: "c15/fresh", QoS: mqtt.QoS1, Payload: []byte("f")})
+	fin, seen := peer.WaitIn(scen.Watchdog, 1, func(p *mqttref.Packet) bool { return p.Type == mqttref.PUBLISH && p.Topic == "c15/fresh" })
+	if !seen || fin[0].P.ID != oldID {
+		return "inconclusive", "fresh request did not get the positioned identifier"
+	}
+	go rh.Retry(ctx, cliB)
+	rin, seen := peer.WaitIn(scen.Watchdog, 2, func(p *mqttref.Packet) bool { return p.Type == want })
+	if !seen {
+		return "inconclusive", "re-issued request not seen"
+	}
+	if rin[1].P.ID == oldID {
+		return "id-reuse", fmt.Sprintf("%s re-issued through its retry handle on the next connection carries identifier %d, which a fresh PUBLISH outstanding on that connection is using", mqttref.TypeName(want), oldID)
+	}
+	return "", ""
 }
